@@ -6,6 +6,8 @@ CONSTANTS
   PidOps = {"$p1", "$p3", "9999"}
   Sigs = {"KILL", "TSTP", "STOP", "CONT"}
   JobsOpts = {"", "-l", "-p"}
+  KillLNums = {}
+  FgSlots = {}
   StartWith = "p3"
 VIEW view
 INVARIANT TableConsistent
